@@ -75,6 +75,7 @@ impl CallBound {
         let r = catch_unwind(AssertUnwindSafe(|| match build(&pc.gc) {
             Built::U(af, labels) => run_problem(&af, &labels, pc.q, pc.sem, enc, a, pc.cert, satwrap::factory(&shared)),
             Built::S(af, labels) => run_problem(&af, &labels, pc.q, pc.sem, enc, a, pc.cert, satwrap::factory(&shared)),
+            Built::C(af, labels) => run_problem(&af, &labels, pc.q, pc.sem, enc, a, pc.cert, satwrap::factory(&shared)),
         }));
         let calls = shared.n_calls();
         let r = match r {
@@ -242,6 +243,7 @@ impl CallBound {
         let r = match build(&case.gc) {
             Built::U(af, labels) => run(Some(&af), None, &labels, &[], rec),
             Built::S(af, labels) => run(None, Some(&af), &[], &labels, rec),
+            Built::C(..) => Ok(()),
         };
         r?;
         rec.class("script-on-one-solver-object");
